@@ -58,11 +58,16 @@ class Src(object):
         self.xscale = None      # optional (lo, hi) override for 'any'
         self.notes = []
 
-    def pick(self, key, strat):
+    _NODEFAULT = object()
+
+    def pick(self, key, strat, default=_NODEFAULT):
+        """``default``: value of an option that older replay files lack."""
         if self.draw is None:
             try:
                 return self.opts[key]
             except KeyError:
+                if default is not Src._NODEFAULT:
+                    return default
                 raise HarnessError('descriptor lacks option {!r}'.format(key))
         if not isinstance(strat, SearchStrategy):
             strat = st.sampled_from(list(strat))
@@ -86,8 +91,8 @@ class Src(object):
     def seed(self, key='seed'):
         return self.pick(key, st.integers(0, 9999))
 
-    def flag(self, key):
-        return self.pick(key, st.booleans())
+    def flag(self, key, default=_NODEFAULT):
+        return self.pick(key, st.booleans(), default)
 
     def scalar(self, key, cplx=False, positive=False, nonzero=False):
         if positive:
@@ -966,15 +971,19 @@ def _matop(o):
     return mk
 
 
-@entry('MatrixOperator.axis', 'tensor', classes=['MatrixOperator'], weight=2)
+@entry('MatrixOperator.axis', 'tensor', classes=['MatrixOperator'], weight=5)
 def _matop_axis(o):
-    shape = o.pick('shape', vs.small_shapes(min_ndim=2, max_ndim=3,
+    # three axes on purpose: numpy.dot contracts the second-to-last axis of
+    # an n-d operand, so only domains with >= 3 axes tell a `dot` shortcut
+    # from the documented contraction over `axis`
+    nd = o.pick('nd', (2, 3, 3))
+    shape = o.pick('shape', vs.small_shapes(min_ndim=nd, max_ndim=nd,
                                             max_side=4, max_size=30))
     axis = o.pick('axis', st.integers(0, len(shape) - 1))
     m = o.pick('m', st.integers(1, 4))
     cplx = o.flag('cplx')
     rangiven = o.flag('rangiven')
-    neg = o.flag('negaxis')
+    neg = o.pick('negaxis', (False, False, False, True))
     how = o.pick('how', ('op', 'op', 'adjoint'))
     seed = o.seed()
 
@@ -1356,7 +1365,7 @@ def _resampling(o):
         o.pick('i%d' % i, ('nearest', 'linear')) for i in range(nd)]
     how = o.pick('how', ('op', 'op', 'inverse', 'adjoint'))
     rnob = o.flag('ran_nob')
-    if o.pick('intvalues', (False, False, False, False, True)):
+    if o.pick('intvalues', (False, False, False, False, True), default=False):
         # integer value arrays (interpolation of those: F17 of C15)
         sd = dict(sd, dtype='int64')
         o.dom = 'int'
@@ -1401,7 +1410,8 @@ def _resizing(o):
         offset.append(abs(left))
     give = o.pick('give', ('ran_shp', 'ran_shp+offset', 'range'))
     how = o.pick('how', ('op', 'op', 'adjoint', 'derivative', 'adjadj'))
-    nob = o.flag('discr_nob')
+    # (a boundary node on both sides of a one-point axis is degenerate)
+    nob = o.flag('discr_nob') and min(rshape) > 1
     def mk():
         sp = B(sd)
         kw = {'pad_mode': pm}
@@ -1775,7 +1785,8 @@ def _dft(o):
     real = not _is_cplx(sd)
     impl = o.pick('impl', ('numpy', 'pyfftw'))
     axes = _axes_pick(o, nd)
-    hc = o.flag('halfcomplex')      # documented: no effect on complex domains
+    # (documented: no effect on complex domains)
+    hc = o.flag('halfcomplex', default=False)
     sign = o.pick('sign', ('-', '-', '+')) if not (hc and real) else '-'
     how = o.pick('how', ('op', 'op', 'inverse', 'adjoint', 'invinv'))
     if real and not hc:
@@ -1812,7 +1823,7 @@ def _dft_inv(o):
     real = not _is_cplx(sd)
     impl = o.pick('impl', ('numpy', 'pyfftw'))
     axes = _axes_pick(o, nd)
-    hc = True if real else o.flag('hc')
+    hc = True if real else o.flag('hc', default=False)
     sign = '+' if real else o.pick('sign', ('+', '+', '-'))
     o.opts['naxes'] = nd if axes is None else len(axes)
     o.opts['halfcomplex'] = hc
@@ -1835,8 +1846,8 @@ def _ft(o):
     impl = o.pick('impl', ('numpy', 'pyfftw'))
     axes = _axes_pick(o, nd)
     na = nd if axes is None else len(axes)
-    hc = o.flag('halfcomplex')
-    sk = o.pick('shiftk', ('true', 'true', 'false', 'mixed'))
+    hc = o.flag('halfcomplex', default=True)
+    sk = o.pick('shiftk', ('true', 'true', 'false', 'mixed'), default='true')
     shift = {'true': True, 'false': False}.get(sk)
     if shift is None:
         shift = [bool((i + o.pick('shift0', st.integers(0, 1))) % 2)
